@@ -369,6 +369,22 @@ def install(I):
         ctx.assume(z3.And(w >= 0, w < zn(a), conv(a.elem(w)) == m))
         return Sym(m)
 
+    @ext("can_cast")
+    def _can_cast(ctx, frm, to, casting="safe"):
+        ctx.assumed_ext.add("numpy.can_cast(from, to, 'safe'): same dtype, or bool / uint8 into any wider numeric or object dtype; never float into int or anything into bool")
+        a, b = dtype_tag(I, frm), dtype_tag(I, to)
+        if casting != "safe":
+            raise Unsupported("numpy.can_cast casting=" + repr(casting))
+        if a == b or b == "object":
+            return True
+        if a == "bool":
+            return b in ("uint8", "int", "float")
+        if a == "uint8":
+            return b in ("int", "float")
+        if b == "bool" or (a == "float" and b in ("int", "uint8")) or a in ("object", "str"):
+            return False
+        raise Unsupported(f"numpy.can_cast({a}, {b}) depends on the bit widths, which the dtype tags do not carry")
+
     @ext("empty_like")
     def _empty_like(ctx, a):
         return np_tab["empty"].fn(ctx, B.wrap(zn(a)), DType(a.dtype))
